@@ -24,6 +24,10 @@ def main():
     reexec_if_needed()
     if VERIF not in sys.path:
         sys.path.insert(0, VERIF)
+    if len(sys.argv) >= 2 and sys.argv[1] == "--worker":
+        from sim import core as _core
+        _core.worker_main(sys.argv[2:6])
+        return
     ap = argparse.ArgumentParser()
     ap.add_argument("prop")
     ap.add_argument("--tier", default=os.environ.get("VERIF_TIER", "quick"), choices=["quick", "thorough"])
